@@ -18,13 +18,13 @@ pub struct CateSpec {
 #[derive(Clone, Debug)]
 pub struct DictSrc {
     pub kind: u8, // 0 matrix, 1 raw, 2 dual
-    pub lex: String,
-    pub matrix: String,
-    pub right: String,
-    pub left: String,
-    pub cost: String,
-    pub chardef: String,
-    pub unk: String,
+    pub lex: Vec<u8>,
+    pub matrix: Vec<u8>,
+    pub right: Vec<u8>,
+    pub left: Vec<u8>,
+    pub cost: Vec<u8>,
+    pub chardef: Vec<u8>,
+    pub unk: Vec<u8>,
     pub num_right: usize,
     pub num_left: usize,
     pub cates: Vec<CateSpec>,
@@ -352,13 +352,13 @@ pub fn gen_dict(rng: &mut Rng, cfg: &GenCfg) -> DictSrc {
     };
     DictSrc {
         kind,
-        lex,
-        matrix,
-        right,
-        left,
-        cost,
-        chardef,
-        unk,
+        lex: lex.into_bytes(),
+        matrix: matrix.into_bytes(),
+        right: right.into_bytes(),
+        left: left.into_bytes(),
+        cost: cost.into_bytes(),
+        chardef: chardef.into_bytes(),
+        unk: unk.into_bytes(),
         num_right: nr,
         num_left: nl,
         cates,
